@@ -1,13 +1,16 @@
 #!/bin/bash
-# try_mutant.sh <seeded-name> <check id>... : apply the seeded change to /repo, run the quick checks, undo.
-# Uses its own build cache so that it does not disturb other runs.  Output: /tmp/mut_<name>_<id>.log
+# try_mutant.sh <seeded-name> <check id>... : run the quick checks on a copy of /repo's working tree with the seeded
+# change applied.  /repo itself is not touched (VERIF_REPO points the build at the copy), so this can run while other
+# checks use /repo; it has its own build cache.  Output: /tmp/mut_<name>_<id>.log
 NAME=$1; shift
 export VERIF_SCRATCH=/tmp/verif-mut
 export VERIF_REPLAYS=/tmp/verif-mut-replays
+export VERIF_REPO=/tmp/verif-mut-repo
 cd /verif
-git -C /repo apply /verif/seeded/$NAME/patch.diff || { echo "patch does not apply"; exit 2; }
+mkdir -p $VERIF_REPO
+rsync -a --delete --exclude .git --exclude _build /repo/ $VERIF_REPO/
+( cd $VERIF_REPO && patch -p1 -s < /verif/seeded/$NAME/patch.diff ) || { echo "patch does not apply"; exit 2; }
 for id in "$@"; do
   python3 tools/check.py $id --tier quick > /tmp/mut_${NAME}_$id.log 2>&1
   echo "$NAME $id exit=$? $(grep -c '^VIOLATION' /tmp/mut_${NAME}_$id.log) violations; $(grep 'signature' /tmp/mut_${NAME}_$id.log | sort | uniq -c | head -3 | tr '\n' ' ')"
 done
-git -C /repo checkout -- .
